@@ -91,7 +91,7 @@ Returned(text) ==
 \*   C11  after an update-engine call (the updated context behaves like one created with that configuration).
 Fresh == IF "fresh" \in DOMAIN E THEN E.fresh ELSE "skip"
 ShadowOn == \/ Focus = "ALL"
-            \/ (Focus \in {"C05", "C09"} /\ Phon)
+            \/ (Focus \in {"C05", "C09", "C03"} /\ Phon)     \* (C03: what holds for the lists of a brand-new context - MC_Split - holds for equal lists)
             \/ (Focus = "C06" /\ ended)
             \/ (Focus = "C11" /\ upd)
 \* comparable: the specification's own view (a recorder that answers "na" where a comparison is possible is rejected)
